@@ -137,7 +137,8 @@ func serializeAttrs(pc *PrintCtx, kvps Attrs) (err error) { //nolint:revive
 	inGroupedMode := pc.inGroupedMode
 
 	if pc.dedupeAttrs {
-		slices.SortFunc(kvps, func(a, b Attr) int {
+		// stable: among equal keys the original order decides which one is kept
+		slices.SortStableFunc(kvps, func(a, b Attr) int {
 			if a == nil {
 				if b == nil {
 					return 0
